@@ -482,6 +482,8 @@ func CheckC16(run *Run) {
 	reqs := stressRequests(rand.New(rand.NewSource(run.Seed+16)), nRandom)
 	nStress := len(reqs)
 	reqs = append(reqs, danglingRequests(run.Tier)...)
+	nDangling := len(reqs)
+	reqs = append(reqs, c16PresentEmptyRequests(run.Tier)...) // c16_empty.go: every annotation present with its zero value
 	type res struct {
 		guarded, mock bool
 		detail        []string
@@ -563,7 +565,18 @@ func CheckC16(run *Run) {
 		obs := map[string]any{"guarded_walk_terminates": o.guarded, "mock_walk_terminates": o.mock}
 		fam, feats := "plugin-termination", []string{"stress"}
 		input := map[string]any{"schema": r.ID, "messages": n, "variants": len(c16Variants), "max_wall_ms": o.maxMs, "max_rss_kb": o.maxRSS}
-		if i >= nStress {
+		if i >= nDangling {
+			fam, feats = "present-empty-annotation", []string{"present-empty"}
+			if len(r.Tags) > 2 {
+				parts := strings.SplitN(r.Tags[2], "/", 2)
+				feats = append(feats, "present-empty:"+parts[0])
+				if len(parts) > 1 {
+					feats = append(feats, "present-empty-on:"+parts[1])
+				}
+				input["present_empty"] = r.Tags[2]
+			}
+			input["request"] = r
+		} else if i >= nStress {
 			fam, feats = "dangling-reference", []string{"dangling"}
 			if len(r.Tags) > 2 {
 				feats = append(feats, "dangling:"+strings.SplitN(r.Tags[2], "/", 2)[0])
